@@ -26,6 +26,11 @@ type Gen struct {
 	cands  []*shmsg.Message
 	Weird  bool // include integer-boundary configs (threshold >= 2^63 ...)
 	NoJunk bool
+	// the last signed payload: re-signed now and then by ANOTHER key with the SAME nonce (the
+	// nonce is per sender, so this is legal; two transactions then differ only in the signature)
+	lastMsg   *shmsg.Message
+	lastNonce uint64
+	lastKey   int
 }
 
 var chainIDs = []string{"verif-chain", "verif-chain", "shutter-api-gnosis-1002", "shutter-gnosis-1000"}
@@ -240,6 +245,14 @@ func (g *Gen) NextTxBy(a *app.ShutterApp, forced int) ([]byte, string) {
 	if forced >= 0 {
 		key = forced
 	}
+	if forced < 0 && g.lastMsg != nil && r.Chance(1, 10) {
+		k2 := g.memberKey(a)
+		if k2 != g.lastKey {
+			raw := SignTx(g.U.Keys[k2], chain, g.lastNonce, g.lastMsg)
+			g.sent = append(g.sent, raw)
+			return raw, fmt.Sprintf("twin payload (same message and nonce as key %d's) by key %d", g.lastKey, k2)
+		}
+	}
 	var m *shmsg.Message
 	note := ""
 	w := r.Intn(100)
@@ -355,8 +368,10 @@ func (g *Gen) NextTxBy(a *app.ShutterApp, forced int) ([]byte, string) {
 		}
 		return g.junk(a)
 	}
-	raw := SignTx(g.U.Keys[key], chain, g.nextNonce(), m)
+	nonce := g.nextNonce()
+	raw := SignTx(g.U.Keys[key], chain, nonce, m)
 	g.sent = append(g.sent, raw)
+	g.lastMsg, g.lastNonce, g.lastKey = m, nonce, key
 	return raw, fmt.Sprintf("%s by key %d", note, key)
 }
 
